@@ -17,9 +17,10 @@
    closed by [exact] of a lemma from Proofs/, followed by Print Assumptions,
    plus pins of the constants the property names and concrete examples. *)
 From RM Require Import Model.Sections Model.SectionsSpec.
-From RM Require Import Proofs.FloatCmp Proofs.NumFacts Proofs.SectionsFacts.
+From RM Require Import Proofs.FloatCmp Proofs.NumFacts Proofs.FloatGrammar Proofs.SectionsFacts Proofs.RangeReal.
 From RM Require Import Gen.Generated.
 From Flocq Require Import BinarySingleNaN.
+From Coq Require Import Rdefinitions.
 Open Scope Z_scope.
 
 (* ====================================================================== *)
@@ -288,26 +289,49 @@ Theorem C11_parse_int_raw_accepts_iff :
 Proof. exact parse_int_raw_spec. Qed.
 Print Assumptions C11_parse_int_raw_accepts_iff.
 
-(* f64 / f32.  Full statement wanted:
-     pn_f64 s = Some x <-> (trim s) is a decimal float literal of the Rust
-     grammar /\ x = its correctly rounded value /\ x is not NaN /\ |x| <= limit.
-   Proved: the limit / NaN part exactly, relative to the raw float parser
-   [parse_f64_raw] (grammar + rounding, Model/Num.v, tied to str::parse by the
-   correspondence check), and that only DECIMAL literals with finite values
-   are accepted (inf, infinity, nan, 1e400 never).  Missing: a declarative
-   float grammar equivalent to [parse_fnum]. *)
-Theorem C11_pn_f64_accepts_iff_partial :
+(* f64 / f32: accepts <=> the trimmed text is a decimal literal of the Rust
+   float grammar
+       sign? ( digits '.'? | digits '.' digits | '.' digits ) ( (e|E) sign? digits )?
+   (decimal_literal: mantissa = all digits, exponent = written exponent, saturating
+   as dec2flt does, minus the number of fraction digits), and its value x is not NaN
+   and lies within +-limit.  [fnum_to_float] is the model's decimal -> binary
+   conversion (one correct rounding built from Flocq's division and rounding
+   primitives); that it is THE nearest-even rounding of m*10^e as a real number
+   is not proved here -- it is tied to Rust's str::parse bit for bit by the
+   correspondence check (exact ties, subnormals, 768-digit expansions). *)
+Theorem C11_pn_f64_accepts_iff :
+  forall s x, pn_f64 s = Some x <->
+    exists neg m e,
+      decimal_literal (trim s) neg m e /\
+      x = fnum_to_float 53 1024 Hp64 He64 neg (FDec m e) (length (trim s)) /\
+      D.is_nan x = false /\ D.le (D.neg f64_limit) x = true /\ D.le x f64_limit = true.
+Proof. exact pn_f64_accepts_iff. Qed.
+Print Assumptions C11_pn_f64_accepts_iff.
+Theorem C11_pn_f32_accepts_iff :
+  forall s x, pn_f32 s = Some x <->
+    exists neg m e,
+      decimal_literal (trim s) neg m e /\
+      x = fnum_to_float 24 128 Hp32 He32 neg (FDec m e) (length (trim s)) /\
+      S.is_nan x = false /\ S.le (S.neg f32_limit) x = true /\ S.le x f32_limit = true.
+Proof. exact pn_f32_accepts_iff. Qed.
+Print Assumptions C11_pn_f32_accepts_iff.
+(* the float grammar itself *)
+Theorem C11_float_grammar :
+  forall s neg m e, parse_fnum s = Some (neg, FDec m e) <-> decimal_literal s neg m e.
+Proof. exact parse_fnum_decimal_iff. Qed.
+Print Assumptions C11_float_grammar.
+(* the limit clause alone, relative to the raw parser *)
+Theorem C11_pn_f64_limit_clause :
   forall s x, pn_f64 s = Some x <->
     parse_f64_raw (trim s) = Some x /\ D.is_nan x = false /\
     D.le (D.neg f64_limit) x = true /\ D.le x f64_limit = true.
 Proof. exact pn_f64_spec. Qed.
-Print Assumptions C11_pn_f64_accepts_iff_partial.
-Theorem C11_pn_f32_accepts_iff_partial :
+Theorem C11_pn_f32_limit_clause :
   forall s x, pn_f32 s = Some x <->
     parse_f32_raw (trim s) = Some x /\ S.is_nan x = false /\
     S.le (S.neg f32_limit) x = true /\ S.le x f32_limit = true.
 Proof. exact pn_f32_spec. Qed.
-Print Assumptions C11_pn_f32_accepts_iff_partial.
+(* inf / infinity / nan / 1e400 are never accepted *)
 Theorem C11_pn_float_accepts_only_finite_decimals :
   (forall s x, pn_f64 s = Some x -> is_finite x = true /\ exists neg m e, parse_fnum (trim s) = Some (neg, FDec m e)) /\
   (forall s x, pn_f32 s = Some x -> is_finite x = true /\ exists neg m e, parse_fnum (trim s) = Some (neg, FDec m e)).
@@ -361,6 +385,16 @@ Theorem C11_difficulty_always_in_range :
     in_range sm_lo sm_hi (d_slider_multiplier s) /\ in_range tr_lo tr_hi (d_slider_tick_rate s).
 Proof. intros lines. exact (difficulty_run_inv lines difficulty_default difficulty_default_inv). Qed.
 Print Assumptions C11_difficulty_always_in_range.
+
+(* the same in the reals: B2R sm_lo and B2R sm_hi are the binary64 numbers
+   nearest to 0.4 and 3.6 (pin_clamp_bits), B2R tr_lo = 0.5, B2R tr_hi = 8 *)
+Theorem C11_difficulty_always_in_range_real :
+  forall lines,
+    let s := run_lines parse_difficulty difficulty_default lines in
+    (B2R sm_lo <= B2R (d_slider_multiplier s) <= B2R sm_hi)%R /\
+    (B2R tr_lo <= B2R (d_slider_tick_rate s) <= B2R tr_hi)%R.
+Proof. exact difficulty_always_in_range_real. Qed.
+Print Assumptions C11_difficulty_always_in_range_real.
 
 (* approach rate follows overall difficulty until it is set itself ... *)
 Theorem C11_ar_follows_od :
@@ -464,6 +498,16 @@ Example ex_colours :
            ["Combo1 : 1,2,3"; "SliderBorder: 4,5,6,7"; "Combo2: 1,2"; "SliderBorder: 8,9,10"; "Combo3: 256,0,0"]
   = [1; 1; 2; 3; 255; 1; 12; 83; 108; 105; 100; 101; 114; 66; 111; 114; 100; 101; 114; 8; 9; 10; 255].
 Proof. vm_compute. reflexivity. Qed.
+(* the grammar relation is inhabited: "-12.50e+3" = -(1250 * 10^(3-2)) *)
+Example ex_decimal_literal : decimal_literal (lit "-12.50e+3") true 1250 1.
+Proof.
+  change (decimal_literal ([45] ++ lit "12" ++ (if true then [46] else []) ++ lit "50" ++ lit "e+3") true
+            (digits_value (lit "12" ++ lit "50") 0) (3 - zlen (lit "50"))).
+  apply DL; try reflexivity.
+  - right; right; split; reflexivity.
+  - discriminate.
+  - apply (EP_plus 101 (lit "3")); [left; reflexivity|discriminate|reflexivity].
+Qed.
 (* numbers: -0, inf, 1e400, leading +, padding, .5, 5., 1e5, boundary *)
 Example ex_numbers :
   map (fun s => omap D.bits (pn_f64 (lit s)))
